@@ -549,3 +549,72 @@ func variadicElems(v ssa.Value) []ssa.Value {
 	}
 	return out
 }
+
+// iterPath is one path through a loop body: from the loop head back to the
+// head (Ret == nil) or to a return.
+type iterPath struct {
+	Blocks []*ssa.BasicBlock
+	Ret    *ssa.Return
+}
+
+// loopIterationPaths enumerates the acyclic paths from head's in-loop
+// successors back to head or to a return (inner loops are traversed at most once).
+func loopIterationPaths(ff *core.FnFacts, head *ssa.BasicBlock, limit int) []iterPath {
+	var out []iterPath
+	var rec func(b *ssa.BasicBlock, seen map[*ssa.BasicBlock]bool, blocks []*ssa.BasicBlock)
+	rec = func(b *ssa.BasicBlock, seen map[*ssa.BasicBlock]bool, blocks []*ssa.BasicBlock) {
+		if len(out) >= limit {
+			return
+		}
+		blocks = append(blocks, b)
+		if ret, ok := b.Instrs[len(b.Instrs)-1].(*ssa.Return); ok {
+			out = append(out, iterPath{Blocks: append([]*ssa.BasicBlock{}, blocks...), Ret: ret})
+			return
+		}
+		for _, s := range b.Succs {
+			if !ff.IsLiveEdge(b, s) {
+				continue
+			}
+			if s == head {
+				out = append(out, iterPath{Blocks: append(append([]*ssa.BasicBlock{}, blocks...), s)})
+				continue
+			}
+			if seen[s] {
+				continue
+			}
+			seen[s] = true
+			rec(s, seen, blocks)
+			delete(seen, s)
+		}
+	}
+	for _, s := range head.Succs {
+		if ff.IsLiveEdge(head, s) && blockReaches(ff, s, head, nil) {
+			rec(s, map[*ssa.BasicBlock]bool{s: true}, []*ssa.BasicBlock{head})
+		}
+	}
+	return out
+}
+
+// nonNilResult: every success return of f returns a freshly allocated (hence
+// non-nil) value as result 0.
+func (r *Run) nonNilResult(f *ssa.Function) bool {
+	if f == nil || f.Blocks == nil || !r.P.IsSubject(f) {
+		return false
+	}
+	ff := r.E.Facts(f, core.Ctx{})
+	n := 0
+	for _, ri := range ff.Returns() {
+		if ri.Class != core.RetSuccess {
+			continue
+		}
+		n++
+		for _, l := range phiLeaves(core.RetOp(ri.Ret, 0)) {
+			switch l.(type) {
+			case *ssa.Alloc, *ssa.MakeMap, *ssa.MakeSlice:
+			default:
+				return false
+			}
+		}
+	}
+	return n > 0
+}
